@@ -31,7 +31,10 @@ OWN_B = {"update-raises", "req-unmet", "extrapolating-get", "illegal-update", "r
 
 
 def generate(tape, tier="quick"):
-    regime = tape.weighted([("b", 6), ("a", 4), ("c", 3), ("a2", 2), ("d", 1), ("n", 2)])
+    regime = tape.weighted([("b", 6), ("a", 4), ("c", 3), ("a2", 2), ("d", 1), ("n", 2), ("b2", 2)])
+    b2 = regime == "b2"      # delay-resolved ring whose initial data has to travel once around the ring in connect
+    if b2:
+        regime = "b"
     comps, links = [], []
 
     def sim(name):
@@ -101,7 +104,7 @@ def generate(tape, tier="quick"):
         n = tape.weighted([(2, 5), (3, 4), (4, 2), (5, 1)])
         ring = [sim(f"s{i}") for i in range(n)]
         sum_max = sum(max(comps[r]["steps"]) for r in ring)
-        a2 = regime == "a2"
+        a2 = regime == "a2" or b2
         if regime in ("a", "a2"):
             # with different start offsets an undelayed ring may legitimately run to a near end time
             # without ever blocking; equal starts make the deadlock certain at the first update
@@ -163,9 +166,9 @@ def generate(tape, tier="quick"):
             else:
                 link(t, r, passthrough(), init_pull=True if a2 else None)
         if a2:
-            for r in ring:
+            for r in (ring[1:] if b2 else ring):
                 comps[r]["init_dep"] = True
-        cyc = {"link": cl, "regime": regime, "need": sum_max}
+        cyc = {"link": cl, "regime": regime, "need": sum_max, "initial_data_travels": b2}
 
     order = tape.shuffle(list(range(len(planned))))
     where = {}
